@@ -43,6 +43,14 @@ def check_registry(ctx, repo):
     for n in walk_local(f.node):
         if isinstance(n, ast.Dict) and len(n.keys) >= 3 and all(isinstance(v, ast.Name) for v in n.values):
             fmap = dict_of_names(n)
+    if fmap is None:
+        # the table as a module-level constant the function reads
+        for n in walk_local(f.node):
+            if isinstance(n, ast.Name) and isinstance(n.ctx, ast.Load) and n.id in m.assigns and n.id not in f.params:
+                d = m.assigns[n.id]
+                if isinstance(d, ast.Dict) and len(d.keys) >= 3 and all(isinstance(v, ast.Name) for v in d.values) and \
+                        not any(isinstance(x, ast.Name) and x.id == n.id and isinstance(x.ctx, ast.Store) for x in walk_local(f.node)):
+                    fmap = dict_of_names(d)
     ctx.need(fmap, 'func_fit: function_map not found')
     cls = repo.cls(TRACE, 'TraceSet')
     tmap = None
@@ -118,60 +126,142 @@ def check_xnorm(ctx, repo):
               msg='has_jump changed: %s' % (src(rets[0].value) if rets else ''), construct='has_jump')
 
 
+class _FitRoles:
+    """The variables of func_fit by what they hold (not by their names): res / yfit (the returned pair), the basis array, the rows of
+    the basis that are solved for, the data minus the fixed part of the model.  Expressions are compared in closed form: every
+    single-definition temporary is expanded down to these roles and the parameters, then canonicalised."""
+
+    def __init__(self, ctx, f):
+        from ..fn import expand
+        from ..normal import canon_key
+        self.f, self.fa = f, FA(f)
+        fa = self.fa
+        P = f.params
+        rets = [r for r in walk_local(f.node) if isinstance(r, ast.Return) and r.value is not None]
+        ctx.need(rets and all(isinstance(r.value, ast.Tuple) and len(r.value.elts) == 2 and all(isinstance(e, ast.Name) for e in r.value.elts) for r in rets)
+                 and len({src(r.value) for r in rets}) == 1, 'func_fit: the returned pair (coefficients, fit) not found')
+        self.res, self.yfit = (e.id for e in rets[0].value.elts)
+        self.basis_stmt = None
+        for st in walk_local(f.node):
+            if isinstance(st, ast.Assign) and len(st.targets) == 1 and isinstance(st.targets[0], ast.Name) and isinstance(st.value, ast.Call):
+                fn_ = expand(st.value.func, fa, 3)
+                if isinstance(fn_, ast.Subscript) and any(isinstance(x, ast.Name) and x.id == 'function_name' for x in ast.walk(fn_.slice)):
+                    self.basis_stmt = st
+        ctx.need(self.basis_stmt is not None, 'func_fit: the call of the basis function chosen by function_name not found')
+        self.leg = self.basis_stmt.targets[0].id
+        self.final = self.ysub = None
+        for st in walk_local(f.node):
+            if isinstance(st, ast.Assign) and len(st.targets) == 1 and isinstance(st.targets[0], ast.Name):
+                v = st.value
+                if isinstance(v, ast.Subscript) and isinstance(v.value, ast.Name) and v.value.id == self.leg and isinstance(v.slice, ast.Tuple):
+                    self.final = st.targets[0].id
+                if isinstance(v, ast.BinOp) and isinstance(v.op, ast.Sub) and isinstance(v.left, ast.Name) and v.left.id == P[1] \
+                        and any(isinstance(x, ast.Name) and x.id == 'inputans' for x in ast.walk(expand(v.right, fa, 4, calls=True))):
+                    self.ysub = st.targets[0].id
+        ctx.need(self.final and self.ysub, 'func_fit: the rows of the basis that are solved for / the data minus the fixed part not found')
+        self.names = {self.res: 'res', self.yfit: 'yfit', self.leg: 'legarr', self.final: 'finalarr', self.ysub: 'ysub'}
+        self._expand, self._key = expand, canon_key
+
+    def key(self, e):
+        x = self._expand(e, self.fa, 12, calls=True, stop=tuple(self.names))
+        x = ast.parse(src(x), mode='eval').body
+        for n in ast.walk(x):
+            if isinstance(n, ast.Name) and n.id in self.names:
+                n.id = self.names[n.id]
+        return self._key(x)
+
+    def ref(self, text):
+        return self._key(ast.parse(text, mode='eval').body)
+
+    def stores(self, role):
+        nm = [k for k, v in self.names.items() if v == role][0]
+        out = []
+        for st in walk_local(self.f.node):
+            for t in (st.targets if isinstance(st, ast.Assign) else [st.target] if isinstance(st, ast.AugAssign) else []):
+                b = t
+                while isinstance(b, ast.Subscript):
+                    b = b.value
+                if isinstance(b, ast.Name) and b.id == nm:
+                    out.append((st, t))
+        return out
+
+
+NGOOD = 'len((invvar > 0).nonzero()[0])'
+NCFIT = 'min(%s, ncoeff)' % NGOOD
+NONFIX = 'ia[:%s].nonzero()[0]' % NCFIT
+FIXED = '(~ia[:%s]).nonzero()[0]' % NCFIT
+
+
 def check_func_fit(ctx, repo):
     f = repo.func(TRACE, 'func_fit')
-    fa = FA(f)
+    R = _FitRoles(ctx, f)
+    fixed_k, nonfix_k = R.ref(FIXED), R.ref(NONFIX)
     # FIXED-LAST
-    st_fixed = [st for st in walk_local(f.node) if isinstance(st, ast.Assign) and src(st.targets[0]) == 'res[fixed]']
-    solves = [st for st in walk_local(f.node) if isinstance(st, ast.Assign) and src(st.targets[0]) == 'res[nonfix]']
-    ok = len(st_fixed) == 1 and src(st_fixed[0].value) == 'inputans[fixed]' and solves and all(st_fixed[0].lineno > s.end_lineno for s in solves)
-    later = [st for st in walk_local(f.node) if isinstance(st, (ast.Assign, ast.AugAssign)) and st_fixed and st.lineno > st_fixed[0].lineno
-             and any(src(t).startswith('res') for t in (st.targets if isinstance(st, ast.Assign) else [st.target]))]
+    writes = [(st, t) for st, t in R.stores('res') if isinstance(t, ast.Subscript)]
+    by_index = {}
+    for st, t in writes:
+        by_index.setdefault(R.key(t.slice), []).append(st)
+    st_fixed = by_index.get(fixed_k, [])
+    solves = by_index.get(nonfix_k, [])
+    ok = len(st_fixed) == 1 and isinstance(st_fixed[0], ast.Assign) and R.key(st_fixed[0].value) == R.ref('inputans[%s]' % FIXED) and bool(solves) \
+        and all(st_fixed[0].lineno > s.end_lineno for s in solves)
+    later = [st for st, t in R.stores('res') if st_fixed and st.lineno > st_fixed[0].lineno]
     ctx.check('C13.FIXED-LAST', ok and not later, f, st_fixed[0] if st_fixed else f.node,
               'res[fixed] = inputans[fixed] follows the solve and is the last write to the coefficients',
               msg='the prescribed values of fixed coefficients are not written after the solve as the last write to the result', construct='fixed coefficients')
-    fx = [st for st in walk_local(f.node) if isinstance(st, ast.Assign) and src(st.targets[0]) == 'fixed']
-    ok = len(fx) == 1 and src(fx[0].value).replace(' ', '') == '(~ia[0:ncfit]).nonzero()[0]'
-    ctx.check('C13.FIXED-LAST', ok, f, fx[0] if fx else f.node, 'fixed = positions where ia is False', msg='`fixed` is %s' % (src(fx[0].value) if fx else '?'), construct='fixed index')
-    yf = [st for st in walk_local(f.node) if isinstance(st, ast.Assign) and src(st.targets[0]) == 'yfix' and 'dot' in src(st.value)]
-    ok = len(yf) == 1 and src(yf[0].value).replace(' ', '') in ('np.dot(legarr.T,inputans*(1-ia))', 'np.dot(legarr.T,inputans*~ia)', 'np.dot(legarr.T,(1-ia)*inputans)')
+    # the positions called fixed are those where ia is False: every index of a coefficient store other than the solve and the single good point
+    other = [k for k in by_index if k not in (fixed_k, nonfix_k, '0')]
+    ctx.check('C13.FIXED-LAST', not other, f, by_index[other[0]][0] if other else (st_fixed[0] if st_fixed else f.node),
+              'fixed = positions where ia is False among the fitted coefficients', msg='a coefficient store is indexed by `%s`' % (other[0] if other else '?'),
+              construct='fixed index')
+    yf = [st for st, t in R.stores('ysub') if isinstance(st, ast.Assign) and isinstance(st.value, ast.BinOp)]
+    want = {R.ref('y - np.dot(legarr.T, inputans * (1 - ia))'), R.ref('y - np.dot(legarr.T, inputans * ~ia)')}
+    ok = len(yf) == 1 and R.key(yf[0].value) in want
     ctx.check('C13.FIXED-LAST', ok, f, yf[0] if yf else f.node, 'the subtracted model is basis^T (inputans * (1 - ia)): only the fixed coefficients contribute',
               msg='the model subtracted from y is `%s`: values in the free slots of inputans are subtracted as well, biasing the fitted coefficients'
                   % (src(yf[0].value) if yf else '?'), construct='yfix ' + (src(yf[0].value) if yf else ''))
-    # WEIGHTS
-    e2 = [st for st in walk_local(f.node) if isinstance(st, ast.Assign) and src(st.targets[0]) == 'extra2']
-    ok = len(e2) == 1 and src(e2[0].value).replace(' ', '').endswith(',invvar)') and 'finalarr*np.outer(' in src(e2[0].value).replace(' ', '')
-    ctx.check('C13.WEIGHTS', ok, f, e2[0] if e2 else f.node, 'normal matrix: basis * outer(1, invvar)', msg='the normal matrix is not weighted by invvar itself: %s'
-              % (src(e2[0].value)[:70] if e2 else '?'), construct='normal matrix weights')
-    al = [st for st in walk_local(f.node) if isinstance(st, ast.Assign) and src(st.targets[0]) == 'alpha']
-    ctx.check('C13.WEIGHTS', len(al) == 1 and src(al[0].value) == 'np.dot(finalarr, extra2.T)', f, al[0] if al else f.node, 'alpha = basis . (weighted basis)^T',
-              msg='alpha is %s' % (src(al[0].value) if al else '?'), construct='alpha')
-    be = [st for st in walk_local(f.node) if isinstance(st, ast.Assign) and src(st.targets[0]) == 'beta']
-    sc = [s for s in solves if '.sum()' in src(s.value)]
-    ok = len(be) == 1 and src(be[0].value) == 'np.dot(ysub * invvar, finalarr.T)' and len(sc) == 1 and src(sc[0].value) == '(ysub * invvar * finalarr).sum() / alpha'
-    ctx.check('C13.WEIGHTS', ok, f, be[0] if be else f.node, 'right-hand side: (ysub * invvar) . basis^T (and the one-parameter form)',
+    # WEIGHTS: the solve stores, in closed form
+    ones = 'np.ones((len(%s),), dtype=x.dtype)' % NONFIX
+    alpha = 'np.dot(finalarr, (finalarr * np.outer(%s, invvar)).T)' % ones
+    many = R.ref('np.linalg.solve(%s, np.dot(ysub * invvar, finalarr.T))' % alpha)
+    single = R.ref('(ysub * invvar * finalarr).sum() / %s' % alpha)
+    keys = [R.key(s.value) for s in solves if isinstance(s, ast.Assign)]
+    a_ok = all(R.ref(alpha) in k for k in keys) and bool(keys)
+    ctx.check('C13.WEIGHTS', a_ok, f, solves[0] if solves else f.node, 'normal matrix: basis . (basis * outer(1, invvar))^T',
+              msg='the normal matrix is not the basis weighted by invvar itself: %s' % (src(solves[0].value)[:70] if solves else '?'), construct='normal matrix weights')
+    ctx.check('C13.WEIGHTS', many in keys, f, solves[0] if solves else f.node, 'right-hand side: (ysub * invvar) . basis^T, solved against the normal matrix',
               msg='the right-hand side is not weighted by invvar itself', construct='rhs weights')
+    ctx.check('C13.WEIGHTS', single in keys and len(keys) == 2, f, solves[-1] if solves else f.node,
+              'one free coefficient: sum(ysub * invvar * basis) / normal matrix', msg='the one-parameter solution is not weighted by invvar itself',
+              construct='rhs weights (one parameter)')
 
 
 def check_yfit_all(ctx, repo):
     """The fitted model is evaluated at every abscissa (masked points included) and the normal matrix is used as formed."""
     f = repo.func(TRACE, 'func_fit')
-    fa = FA(f)
-    basis = [st for st in walk_local(f.node) if isinstance(st, ast.Assign) and src(st.targets[0]) == 'legarr' and isinstance(st.value, ast.Call)]
-    ok = len(basis) == 1 and basis[0].value.args and src(basis[0].value.args[0]) == f.params[0]
-    ctx.check('C13.YFIT-ALL', ok, f, basis[0] if basis else f.node, 'the basis is evaluated at every abscissa x (zero-weight points included)',
+    R = _FitRoles(ctx, f)
+    b = R.basis_stmt
+    ok = bool(b.value.args) and R.key(b.value.args[0]) == f.params[0]
+    ctx.check('C13.YFIT-ALL', ok, f, b, 'the basis is evaluated at every abscissa x (zero-weight points included)',
               msg='the basis is evaluated at `%s`, not at all of x: the returned model is then missing at masked points'
-                  % (src(basis[0].value.args[0]) if basis and basis[0].value.args else '?'), construct='basis abscissae')
-    finals = [st for st in walk_local(f.node) if isinstance(st, (ast.Assign, ast.AugAssign)) and any(
-        src(t).startswith('yfit') for t in (st.targets if isinstance(st, ast.Assign) else [st.target])) and 'dot' in src(st.value)]
-    ok = len(finals) == 1 and isinstance(finals[0], ast.Assign) and src(finals[0].targets[0]) == 'yfit' and src(finals[0].value) == 'np.dot(legarr.T, res[0:ncfit])'
-    ctx.check('C13.YFIT-ALL', ok, f, finals[0] if finals else f.node, 'yfit = basis^T . coefficients for all points',
+                  % (src(b.value.args[0]) if b.value.args else '?'), construct='basis abscissae')
+    finals = [(st, t) for st, t in R.stores('yfit') if any(isinstance(c, ast.Call) and call_name(c) in ('dot', 'matmul') for c in ast.walk(
+        R._expand(st.value, R.fa, 6, calls=True, stop=tuple(R.names))))]
+    ok = len(finals) == 1 and isinstance(finals[0][0], ast.Assign) and isinstance(finals[0][1], ast.Name) and \
+        R.key(finals[0][0].value) == R.ref('np.dot(legarr.T, res[:%s])' % NCFIT)
+    ctx.check('C13.YFIT-ALL', ok, f, finals[0][0] if finals else f.node, 'yfit = basis^T . coefficients for all points',
               msg='the fitted model is stored as `%s`: positions outside that selection keep 0, so evaluating the trace set there no longer returns the '
-                  'fitted values' % (src(finals[0])[:70] if finals else '?'), construct='yfit assignment')
-    al = [st for st in walk_local(f.node) if isinstance(st, ast.Assign) and src(st.targets[0]) == 'alpha']
-    touched = [st for st in walk_local(f.node) if isinstance(st, (ast.Assign, ast.AugAssign)) and st not in al and any(
-        src(t).startswith('alpha[') or (isinstance(st, ast.AugAssign) and src(t) == 'alpha') for t in (st.targets if isinstance(st, ast.Assign) else [st.target]))]
-    ctx.check('C13.YFIT-ALL', not touched, f, touched[0] if touched else (al[0] if al else f.node), 'the normal matrix is solved as formed (no regularisation term)',
+                  'fitted values' % (src(finals[0][0])[:70] if finals else '?'), construct='yfit assignment')
+    # the normal matrix: any name whose closed form is basis . (weighted basis)^T must not be modified after it is formed
+    mats = set()
+    for st in walk_local(f.node):
+        if isinstance(st, ast.Assign) and len(st.targets) == 1 and isinstance(st.targets[0], ast.Name) and isinstance(st.value, ast.Call) \
+                and call_name(st.value) in ('dot', 'matmul') and 'finalarr' in R.key(st.value) and 'ysub' not in R.key(st.value):
+            mats.add(st.targets[0].id)
+    touched = [st for st in walk_local(f.node) if isinstance(st, (ast.Assign, ast.AugAssign)) and any(
+        (isinstance(t, ast.Subscript) and isinstance(t.value, ast.Name) and t.value.id in mats) or
+        (isinstance(st, ast.AugAssign) and isinstance(t, ast.Name) and t.id in mats) for t in (st.targets if isinstance(st, ast.Assign) else [st.target]))]
+    ctx.check('C13.YFIT-ALL', not touched, f, touched[0] if touched else f.node, 'the normal matrix is solved as formed (no regularisation term)',
               msg='the normal matrix is modified after it is formed (`%s`): the solution is no longer the weighted least-squares optimum and depends on the '
                   'absolute scale of the weights' % (src(touched[0])[:70] if touched else ''), construct='alpha modified')
 
@@ -270,7 +360,22 @@ def check_fit_once(ctx, repo):
     f = repo.func(TRACE, 'TraceSet.__init__')
     fa = FA(f)
     loops = [n for n in walk_local(f.node) if isinstance(n, ast.While) and any(isinstance(c, ast.Call) and call_name(c) == 'func_fit' for c in walk_local(n))]
-    ctx.need(loops, 'TraceSet.__init__: fit loop not found')
+    counted = [n for n in walk_local(f.node) if isinstance(n, ast.For) and any(isinstance(c, ast.Call) and call_name(c) == 'func_fit' for c in n.body for c in ast.walk(c))
+               and isinstance(n.iter, ast.Call) and call_name(n.iter) == 'range' and any(isinstance(x, ast.Name) and x.id == 'maxiter' for x in ast.walk(n.iter))]
+    ctx.need(loops or counted, 'TraceSet.__init__: fit loop not found')
+    for lp in counted:
+        # for _ in range([start,] stop): the number of passes for maxiter = 0
+        a = lp.iter.args
+        try:
+            lo = fold(a[0], env={'maxiter': 0}) if len(a) >= 2 else 0
+            hi = fold(a[1] if len(a) >= 2 else a[0], env={'maxiter': 0})
+            step = fold(a[2], env={'maxiter': 0}) if len(a) == 3 else 1
+            first = len(range(lo, hi, step)) >= 1
+        except (NoFold, TypeError, ValueError) as e:
+            raise AnalysisError('C13: TraceSet.__init__: the pass count `%s` cannot be evaluated for maxiter = 0 (%s)' % (src(lp.iter), e))
+        ctx.check('C13.FIT-ONCE', first, f, lp, 'with maxiter = 0 the loop over `%s` has a first pass: func_fit is called once' % src(lp.iter),
+                  msg='with maxiter = 0 the loop over `%s` has no pass: func_fit is never called and every trace keeps all-zero coefficients' % src(lp.iter),
+                  construct='fit loop skipped for maxiter=0: ' + src(lp.iter))
     for lp in loops:
         names = {x.id for x in ast.walk(lp.test) if isinstance(x, ast.Name)}
         env = {}
